@@ -13,6 +13,7 @@ import (
 	sdk "github.com/pokt-network/posmint/types"
 	"github.com/pokt-network/posmint/x/auth"
 	authexp "github.com/pokt-network/posmint/x/auth/exported"
+	govTypes "github.com/pokt-network/posmint/x/gov/types"
 	posTypes "github.com/pokt-network/posmint/x/pos/types"
 )
 
@@ -342,7 +343,45 @@ func (s *Snapshot) String() string {
 		}
 		sb.WriteString(" b2[" + strings.Join(b2, ",") + "] s2=" + sup2)
 	}
+	sb.WriteString(s.govText())
 	return sb.String()
+}
+
+// govText: the governance-controlled state as the model prints it - the parameters the model tracks (integers and
+// durations as digits, decimals as their 18-digit raw value), the DAO owner, the upgrade plan, the access-control list
+func (s *Snapshot) govText() string {
+	q := func(key string) string { // "123" -> 123
+		v := s.Params[key]
+		if len(v) >= 2 && v[0] == '"' && v[len(v)-1] == '"' {
+			return v[1 : len(v)-1]
+		}
+		return "?" + v
+	}
+	dec := func(key string) string {
+		d, err := sdk.NewDecFromStr(q(key))
+		if err != nil {
+			return "?" + s.Params[key]
+		}
+		return d.Int.String()
+	}
+	var up govTypes.Upgrade
+	upg := "?"
+	if err := govTypes.ModuleCdc.UnmarshalJSON([]byte(s.Params["gov/upgrade"]), &up); err == nil {
+		upg = fmt.Sprintf("%d:%s", up.Height, up.Version)
+	}
+	var acl govTypes.ACL
+	var pairs []string
+	if err := govTypes.ModuleCdc.UnmarshalJSON([]byte(s.Params["gov/acl"]), &acl); err == nil {
+		for _, p := range acl {
+			pairs = append(pairs, p.Key+"="+hx(p.Addr))
+		}
+	} else {
+		pairs = []string{"?"}
+	}
+	return fmt.Sprintf(" gov[ms=%s,mv=%s,ut=%s,w=%s,mspw=%s,jd=%s,mea=%s,sfds=%s,sfdt=%s,memo=%s,daoo=%s,upg=%s] acl[%s]",
+		q("pos/StakeMinimum"), q("pos/MaxValidators"), q("pos/UnstakingTime"), q("pos/SignedBlocksWindow"), dec("pos/MinSignedPerWindow"),
+		q("pos/DowntimeJailDuration"), q("pos/MaxEvidenceAge"), dec("pos/SlashFractionDoubleSign"), dec("pos/SlashFractionDowntime"),
+		q("auth/MaxMemoCharacters"), q("gov/daoOwner"), upg, strings.Join(pairs, ","))
 }
 
 var _ = auth.StoreKey
